@@ -156,16 +156,92 @@ def diff_lines(base, files):
     return diffs
 
 
+# ---- K tie of the cache key (Props/C11 `canon_key_order_independent`): re-orderings of one schema through the REAL
+# CanonicalSchema::from_schema -----------------------------------------------------------------------------------------
+def _rand_value(r, d):
+    k = r.random()
+    if d <= 0 or k < 0.35:
+        return r.choice([1, 0, -3, True, None, "x", "Grüße", "", 9007199254740993, 10, 5])   # no floats: the model's J carries integers only
+    if k < 0.75:
+        keys = r.sample(["burst", "rate", "a", "b", "z", "Z", "aa", "ä", "_", "10", "9", "limits", "x-y", ""], r.randint(1, 4))
+        return {kk: _rand_value(r, d - 1) for kk in keys}
+    return [_rand_value(r, d - 1) for _ in range(r.randint(0, 3))]
+
+
+def _rand_schema(r, d):
+    t = r.random()
+    if d <= 0 or t < 0.3:
+        s = {"type": r.choice(["string", "integer", "number", "boolean", ["string", "null"]])}
+    elif t < 0.8:
+        names = r.sample(["id", "name", "settings", "limits", "kind", "Tags", "a", "b", "title", "description", "default"], r.randint(1, 4))
+        s = {"type": "object", "properties": {n: _rand_schema(r, d - 1) for n in names}}
+        if r.random() < 0.6:
+            s["required"] = r.sample(names, r.randint(1, len(names)))
+        if r.random() < 0.3:
+            s["additionalProperties"] = r.choice([False, True, _rand_schema(r, d - 1)])
+    else:
+        s = {"type": "array", "items": _rand_schema(r, d - 1)}
+    for kw in ("default", "example", "const", "x-meta", "x-a"):
+        if r.random() < 0.3:
+            s[kw] = _rand_value(r, 3)
+    if r.random() < 0.2:
+        s["examples"] = [_rand_value(r, 2) for _ in range(r.randint(1, 3))]
+    if r.random() < 0.15:
+        s["enum"] = [_rand_value(r, 2) for _ in range(r.randint(1, 3))]
+    for kw in ("description", "title"):
+        if r.random() < 0.3:
+            s[kw] = r.choice(["text", "other text"])
+    return s
+
+
+def shuffle_deep(r, v):
+    if isinstance(v, dict):
+        items = [(k, shuffle_deep(r, x)) for k, x in v.items()]
+        r.shuffle(items)
+        return dict(items)
+    if isinstance(v, list):
+        return [shuffle_deep(r, x) for x in v]
+    return v
+
+
+def canon_perm_cases(ctx):
+    r = ctx.rng
+    fixed = [
+        {"type": "object", "properties": {"limits": {"type": "object", "default": {"burst": 10, "rate": 5}}}},
+        {"type": "object", "x-meta": {"b": {"d": 1, "c": 2}, "a": 0}, "properties": {"a": {"type": "string"}, "b": {"type": "integer"}}, "required": ["b", "a"]},
+        {"type": "string", "enum": ["x", "y"], "default": "x", "example": {"z": 1, "y": {"q": 1, "p": 2}}},
+        {"type": "array", "items": {"type": "object", "properties": {"k": {"const": {"n": 1, "m": [{"b": 1, "a": 2}]}}}}},
+    ]
+    schemas = fixed + [_rand_schema(r, 3) for _ in range(300 if ctx.quick else 6000)]
+    import featgen
+    for _ in range(6 if ctx.quick else 60):
+        try:
+            schemas += list((featgen.rand_spec(r).get("components", {}).get("schemas", {}) or {}).values())
+        except Exception:
+            pass
+    cases = []
+    for s in schemas:
+        cases.append({"op": "cache.canon_perm", "in": {"schemas": [s] + [shuffle_deep(r, s) for _ in range(3)]}})
+    return cases
+
+
 def run(ctx):
     import cligrammar as G
     ctx.translate(["hashsites"])
-    proofs_ok, driver_ok = ctx.build_lean(["Oas3Model.Props.C11"], driver=False)
+    proofs_ok, driver_ok = ctx.build_lean(["Oas3Model.Props.C11"])
     if proofs_ok:
         ctx.audit("Oas3Model.Props.C11")
         if not ctx.quick:
             ctx.leanchecker("Oas3Model.Props.C11")
     r = ctx.rng
     known = {e["class"]: e for e in ctx.load_known()}
+    # K: the cache key of re-ordered schemas (real CanonicalSchema::from_schema vs Cache.canon, judged equal per case)
+    if driver_ok and ctx.build_harness(["k_cache"]):
+        kc = canon_perm_cases(ctx)
+        for i in range(0, len(kc), 500):
+            ctx.classify(ctx.evaluate(kc[i:i + 500]), tie="K")
+            if ctx.violations:
+                break
     if ctx.build_cli():
         specs = []
         fx = FIXTURES if not ctx.quick else ["petstore.json"] + r.sample([f for f in FIXTURES if f != "petstore.json"], 3)
